@@ -140,6 +140,7 @@ structure PState where
   cache : List ((Nat × Nat) × String) := []      -- (peer, seq) ↦ response the UPF produced for that request
   outst : List ((Nat × Nat) × (String × Nat)) := []   -- (peer, wire seq) ↦ (srreq as sent, header SEID)
   maxRetrans : Nat := 3
+  nextSeqn : List ((Nat × Nat) × Nat) := []           -- (UP SEID, URR id) ↦ UR-SEQN the next report must carry
 deriving Inhabited
 
 def eventKind (toks : List String) : String := lookD (kvs toks) "kind" (toks.headD "")
@@ -289,24 +290,36 @@ def check (ps : PState) (evLine : String) (obs : List String) (fault : Option St
         if (prev.tx.all fun t => t.1 != s!"p{peer}-{seq}") then
           fs := fs ++ [s!"C09 outstanding request p{peer}-{seq} has no bookkeeping entry under its wire sequence number"]
       | _, _ => pure ()
-    -- C11: UR-SEQN numbering per URR, across all three carriers
-    for s in sends do
-      if s.kind ∈ ["modrsp", "delrsp", "srreq"] && !isDup && typ != "tmo" then
-        let up := if typ == "report" || kind == "mod" || kind == "del" then seid else 0
-        match prev.live up with
-        | none => pure ()
-        | some ds =>
-          let us := parseUsars (lookD s.f "usar" "_")
-          -- URRs (re)created by this very request start again at 0
-          let recreated := ((listOf (lookD m "curr" "_")).map fun t => (splitOn1 t '/').headD "-").filterMap parseId
-          let mut seen : List (Nat × Nat) := []
-          for u in us do
-            let base := if recreated.contains u.urr then 0 else ((ds.urrs.find? (·.id == u.urr)).map (·.seqn)).getD 0
-            let k := ((seen.find? (·.1 == u.urr)).map (·.2)).getD 0
-            if u.seqn != base + k then
-              fs := fs ++ [s!"C11 usage report of URR {u.urr} carries UR-SEQN {u.seqn}, expected {base + k}"]
-            seen := (u.urr, k + 1) :: seen.filter (·.1 != u.urr)
     return fs
+  -- C11 (external): expected numbering from the history of Create URR IEs and emitted reports
+  let createdUrrs (key : String) : List Nat := ((listOf (lookD m key "_")).map fun t => (splitOn1 t '/').headD "-").filterMap parseId
+  let (seq1, c11fails) : List ((Nat × Nat) × Nat) × List String := Id.run do
+    let mut tbl := ps.nextSeqn
+    let mut fs : List String := []
+    if typ == "recv" && !isDup then
+      -- a new session: its SEID may have been used before
+      if kind == "est" then
+        for s in sends do
+          if s.kind == "estrsp" then
+            let up := hexD ((splitOn1 (lookD s.f "fseid" "-") '/').headD "0")
+            tbl := tbl.filter (·.1.1 != up)
+            for u in createdUrrs "urr" do
+              tbl := ((up, u), 0) :: tbl
+      if kind == "mod" && (prev.live seid).isSome then
+        for u in createdUrrs "curr" do
+          tbl := ((seid, u), 0) :: tbl.filter (·.1 != (seid, u))
+    if !isDup && typ != "tmo" then
+      for s in sends do
+        if s.kind ∈ ["modrsp", "delrsp", "srreq"] then
+          let up := if typ == "report" || (typ == "recv" && (kind == "mod" || kind == "del")) then seid else 0
+          if (prev.live up).isSome then
+            for u in parseUsars (lookD s.f "usar" "_") do
+              let want := ((tbl.find? (·.1 == (up, u.urr))).map (·.2)).getD 0
+              if u.seqn != want then
+                fs := fs ++ [s!"C11 usage report of URR {u.urr} (session {hexN up}) carries UR-SEQN {u.seqn}; it is report number {want} since the URR was created"]
+              tbl := ((up, u.urr), want + 1) :: tbl.filter (·.1 != (up, u.urr))
+    return (tbl, fs)
+  let fails := fails ++ c11fails
   -- bookkeeping for the next event
   let cache' := if typ == "recv" && kind ∈ ["hb", "assoc", "est", "mod", "del", "other"] && !isDup then
       let rsp := (sends.filter fun s => s.kind != "srreq" && s.peer == peer).map (·.raw)
@@ -320,6 +333,6 @@ def check (ps : PState) (evLine : String) (obs : List String) (fault : Option St
   let outst0 := if typ == "recv" && (kind == "srrsp" || kind == "orsp") then ps.outst.filter (·.1 != (peer, seq)) else ps.outst
   let outst1 := if typ == "tmo" && lookD m "k" "" == "tx" && !(d.tx.any fun t => t.1 == s!"p{peer}-{seq}")
     then outst0.filter (·.1 != (peer, seq)) else outst0
-  ({ ps with prev := d, cache := cache', outst := outst1 ++ newReqs }, fails)
+  ({ ps with prev := d, cache := cache', outst := outst1 ++ newReqs, nextSeqn := seq1 }, fails)
 
 end UpfVerif.Driver.CtlProps
